@@ -526,6 +526,8 @@ func (u *Unit) evalBinary(env *SpecEnv, x *ast.BinaryExpr) SV {
 				// ill-sorted on this path (e.g. lastarg of a different callee
 				// shape): an unconstrained truth value, provable only vacuously
 				r = u.fresh("illsorted", SBool)
+			} else if ta.Sort == SIface {
+				r = u.eqValues(ta, tb, nil)
 			} else {
 				r = Eq(ta, tb)
 			}
@@ -871,6 +873,24 @@ func (u *Unit) evalCall(env *SpecEnv, x *ast.CallExpr) SV {
 			return env.fail("boxOf: unknown type")
 		}
 		return SV{V: u.makeInterface(env.st, argT(1), t), Typ: types.Universe.Lookup("any").Type()}
+	case "unjsonOfVar", "unjsonOKOfVar":
+		// like unjsonOf, for the (possibly anonymous) type of a local variable
+		vid, _ := x.Args[0].(*ast.Ident)
+		if vid == nil {
+			return env.fail("%s(var, data)", name)
+		}
+		t := u.localType(vid.Name)
+		if t == nil {
+			return env.fail("%s: no local %s", name, vid.Name)
+		}
+		data := argT(1)
+		if name == "unjsonOKOfVar" {
+			return SV{V: u.ghost("unjsonOK", SBool, u.typeID(t), data), Typ: boolT}
+		}
+		srt := u.sortOf(t)
+		fn := "unjson!" + smtName(string(srt))
+		u.decls.Add(fn, fmt.Sprintf("(declare-fun %s (Int String) %s)", fn, srt))
+		return SV{V: app(srt, fn, u.typeID(t), data), Typ: t}
 	case "unjsonOf", "unjsonOKOf":
 		// unjsonOf(TYPE, data): the value json.Unmarshal stores for that target type
 		t := u.resolveType(env, x.Args[0])
